@@ -21,7 +21,7 @@ def make_replay(names):
 
 HOWS = {
     "val": ["val:0", "val:0.0", "val:False", "val:''", "val:[]", "val:()", "val:x", "val:obj"],
-    "exc": ["exc:LookupError", "exc:UserExc", "exc:UserExcSub", "exc:RuntimeError"],
+    "exc": ["exc:LookupError", "exc:UserExc", "exc:UserExcSub", "exc:RuntimeError", "exc:FalsyExc"],
     "base": ["base:UserBase", "base:SystemExit"],
     "kbd": ["base:KeyboardInterrupt"],
     "none": ["none"],
